@@ -103,6 +103,9 @@ MUTANTS = {
     'cpacr_01_allows_user': (V, "                elif self.registers.cpacr.get_cp_n(cp_num) == 0b01:\n                    if not self.registers.current_mode_is_not_user():\n                        raise UndefinedInstructionException()", "                elif self.registers.cpacr.get_cp_n(cp_num) == 0b01:\n                    pass", ['C12']),
     'rfe_wback_before_load': (OPS + 'rfe.py', "                new_pc_value = processor.mem_a_get(address, 4)\n                spsr_value = processor.mem_a_get(add(address, 4, 32), 4)", "                new_pc_value = processor.mem_a_get(address, 4)\n                spsr_value = processor.mem_a_get(add(address, 4, 32), 4) & ~0x1F | processor.registers.cpsr.m", ['C12']),
     'msr_aw_ignored': (R, "            if privileged and (self.is_secure() or self.scr.aw or have_virt_ext()):", "            if privileged:", ['C12']),
+    'it_advance_only_when_passed': (V, "        if self.in_it_block():\n            opcode.execute(self)\n            self.registers.it_advance()", "        if self.in_it_block():\n            passed = self.condition_passed()\n            opcode.execute(self)\n            if passed:\n                self.registers.it_advance()", ['C08']),
+    'add_imm3_sets_flags_in_it': ('armulator/armv6/opcodes/concrete/add_immediate_thumb_t1.py', "setflags = not processor.in_it_block()", "setflags = True", ['C08']),
+    'it_cond_inverted_for_else': (R, "            mask, carry = shift.lsl_c(bits_ops.lower_chunk(itstate, 4), 4, 1)\n            condition_state = chain(carry, mask, 4)", "            mask, carry = shift.lsl_c(bits_ops.lower_chunk(itstate, 4), 4, 1)\n            condition_state = chain(bits_ops.bit_at(itstate, 4), mask, 4)", ['C08']),
     'keyerror_for_ap_100': (V, "        elif perms.ap == 0b100:\n            print('unpredictable')", "        elif perms.ap == 0b100:\n            abort = {}[perms.ap]", ['C18']),
     'stale_opcode_len_reuse': (V, "        elif self.registers.current_instr_set() == InstrSet.THUMB:\n            self.opcode_len = 2\n            self.opcode = self.mem_a_get(self.registers.pc_store_value(), self.opcode_len)",
                                "        elif self.registers.current_instr_set() == InstrSet.THUMB:\n            self.opcode_len = 2 if self.opcode_len != 1 else 4\n            self.opcode = self.mem_a_get(self.registers.pc_store_value(), 2)", []),
